@@ -4,6 +4,7 @@ Correspondence: random and bounded-exhaustive operation sequences on the real
 `maestrowf.datastructures.dag.DAG` versus `Model/Dag.lean`, compared after
 every operation.  Monitor: the property stated directly on the real graph."""
 import itertools
+import re
 
 from corr import Case, compare, judge, account
 
@@ -184,6 +185,91 @@ def run_case(ops):
     return Case({"ops": [list(o) for o in ops]}, lines, out, mon, nontrivial)
 
 
+def run_study_case(ops):
+    """the other insertion route: `Study.add_step` (a node and one edge per `depends` entry, or the
+    edge from `_source`).  `ops`: (object index, name, depends): an index seen before hands the SAME
+    step object to `add_step` again, with its `depends` as edited meanwhile; a new index is a new
+    object, possibly under a name that is taken.  Judged by the same monitor against the ledger of
+    accepted insertions; no model lines (the model of this route is `buildFlow`, tied by C08 / C13)."""
+    from maestrowf.datastructures.core import Study, StudyStep, StudyEnvironment, ParameterGenerator
+    import common
+    common.next_logging()
+    g = Study("s", "d", studyenv=StudyEnvironment(), parameters=ParameterGenerator(), steps=[], out_path="/nonexistent")
+    objs = {}
+    mon = []
+    ledger = {"_source": []}
+    nontrivial = False
+    for oi, name, deps in ops:
+        st = objs.get(oi)
+        if st is None:
+            st = StudyStep()
+            st.name = name
+            st.description = "d"
+            objs[oi] = st
+        else:
+            nontrivial = True
+        st.run["cmd"] = "echo"
+        st.run["depends"] = list(deps)
+        name = st.real_name
+        before = {k: list(v) for k, v in g.adjacency_table.items()}
+        outcome = "ok"
+        try:
+            g.add_step(st)
+        except ValueError:
+            outcome = "ValueError"
+        except RecursionError:
+            outcome = "OutOfFuel"
+        except Exception:
+            outcome = "Exception"
+        # what the call amounts to, edge by edge, on the ledger
+        ledger.setdefault(name, [])
+        want = "ok"
+        for d in ([re.sub(r"_\*|\*", "", x) for x in deps] or ["_source"]):
+            if d == name:
+                continue
+            if d not in ledger:
+                want = "ValueError"
+                break
+            if name in ledger[d]:
+                continue
+            if d in _reach(ledger, name):
+                want = "Exception"
+                break
+            ledger[d].append(name)
+        op = ("step", name, tuple(deps), "again" if oi in objs and nontrivial else "new")
+        if outcome != "OutOfFuel" and want != outcome:
+            mon.append(("refusal-exact" if want != "ok" else "no-valid-edge-refused",
+                        "add_step(%s, depends=%s) -> %s, the accepted insertions so far (%s) call for %s"
+                        % (name, list(deps), outcome, ledger, want)))
+        adj = {k: list(v) for k, v in g.adjacency_table.items()}
+        if _has_cycle(adj):
+            mon.append(("acyclic", "graph contains a cycle after %s: %s" % (op, adj)))
+        monitor(g, before, op, "ok", mon, ledger)
+        if mon:
+            break
+    return Case({"study_ops": [[oi, n, list(d)] for oi, n, d in ops]}, [], [], mon[:3], nontrivial)
+
+
+def gen_study_ops(rng, length):
+    names = ["a", "b", "c", "d", "e"]
+    ops = []
+    known = []
+    nobj = 0
+    for _ in range(length):
+        r = rng.random()
+        if known and r < 0.3:
+            oi, name = rng.choice(known)           # the same object again, depends edited
+        else:
+            oi, name = nobj, rng.choice(names)
+            nobj += 1
+            known.append((oi, name))
+        pool = [n for _o, n in known] + (["zz"] if rng.random() < 0.05 else [])
+        k = rng.choice([0, 1, 1, 2])
+        deps = [rng.choice(pool) + ("_*" if rng.random() < 0.15 else "") for _ in range(k)]
+        ops.append((oi, name, tuple(deps)))
+    return ops
+
+
 def gen_ops(rng, maxn, length):
     ops = []
     names = list(range(maxn))
@@ -230,6 +316,18 @@ def exhaustive_edges(names, length):
 
 def shrink_factory():
     def shrink(case, clause):
+        if "study_ops" in case.data:
+            sops = [(o[0], o[1], tuple(o[2])) for o in case.data["study_ops"]]
+            cur, changed = case, True
+            while changed:
+                changed = False
+                for i in range(len(sops)):
+                    cand = sops[:i] + sops[i + 1:]
+                    c = run_study_case(cand)
+                    if any(cl == clause for cl, _ in c.monitor):
+                        sops, cur, changed = cand, c, True
+                        break
+            return cur
         ops = [tuple(o) for o in case.data["ops"]]
 
         def bad(c):
@@ -289,10 +387,16 @@ def run(ctx, escalated=False):
         total += len(ex2)
         cases.extend(ex2)
     ctx.cov["exhaustive_edge_sequences"] = {"scopes": [[len(nm), L] for nm, L in scopes], "sequences": total}
+    # the Study.add_step route
+    study_cases = [run_study_case(gen_study_ops(ctx.rng, ctx.rng.randint(3, 10)))
+                   for _ in range(300 if quick else 5000)]
+    ctx.cov["study_add_step_sequences"] = {"sequences": len(study_cases),
+                                           "with_a_step_object_added_again": sum(1 for c in study_cases if c.nontrivial)}
     for c in cases:
         ctx.count("ops", len(c.lines) - 1)
         for o in c.impl_out[1:]:
             ctx.count("outcome:" + o.split(" ")[0][4:])
     diffs = compare(cases)
     account(ctx, cases)
-    judge(ctx, cases, diffs, "dag-operations", shrink=shrink_factory())
+    account(ctx, study_cases)
+    judge(ctx, cases + study_cases, diffs, "dag-operations", shrink=shrink_factory())
